@@ -23,8 +23,8 @@ RULE = ('module dependency DAGs of 3-10 source files (chains, diamonds, wide fan
         'or 24 (thorough) multi-worker builds per case. Non-trivial = serial build succeeded, all planned builds ran, '
         'at least one dependency edge exists and (unless the DAG is a total order) at least two distinct begin/end '
         'interleavings were observed; distinct = hash of the sources.')
-CASES = {'quick': 48, 'thorough': 480}
-MIN_NONTRIVIAL = {'quick': 30, 'thorough': 300}
+CASES = {'quick': 48, 'thorough': 320}
+MIN_NONTRIVIAL = {'quick': 20, 'thorough': 200}
 ANCHORS = []
 REQUIRED_COUNTERS = {'dependency_orderings_checked_hook': 100, 'dependency_orderings_checked_wrapper': 100,
                      'parallel_builds': 20}
@@ -243,17 +243,18 @@ def obj_of_key(key):
     return Path(m.group(1)).stem if m else None
 
 
-def check_log(label, ev, built, deps, add, cnt, info, untracked=(), expect_once=True):
+def check_log(label, ev, built, deps, add, cnt, info, untracked=(), complete=True):
     """ordering + exactly-once on one event log (events: phase/t/key=object stem)"""
     pairs = parlab.pair_events(ev)
     for o in sorted(built):
         p = pairs.get(o, {'begin': [], 'end': []})
         nb, ne = len(p['begin']), len(p['end'])
         if nb == 0:
-            add(f'once:{label}:object-never-compiled', f'no compile of {o} in the {label} log', **info)
-        elif nb > 1 and expect_once:
+            if complete:
+                add(f'once:{label}:object-never-compiled', f'no compile of {o} in the {label} log', **info)
+        elif nb > 1:
             add(f'once:{label}:object-compiled-more-than-once', f'{nb} compiles of {o} in the {label} log', **info)
-        elif ne != nb:
+        elif ne != nb and complete:
             add(f'once:{label}:compile-began-but-never-ended', f'{o}: {nb} begin / {ne} end', **info)
     for o in pairs:
         if o not in built:
@@ -423,8 +424,8 @@ def _run_case(idx, rng, tier, case, wd, src):
         ok = r['status'] == 'ok' and r.get('lib_exists')
         nviol_before = len(viol)
         # ordering first (so that a failed build is explained by its cause)
-        check_log('hook', hev, built, deps, add, cnt, info, untracked)
-        check_log('wrapper', sorted(wev, key=lambda e: e['t']), built, deps, add, cnt, info, untracked)
+        check_log('hook', hev, built, deps, add, cnt, info, untracked, complete=ok)
+        check_log('wrapper', sorted(wev, key=lambda e: e['t']), built, deps, add, cnt, info, untracked, complete=ok)
         if parlab.max_parallelism(hev) >= 2:
             cnt['builds_with_two_compiles_in_flight'] += 1
         if hev:
